@@ -910,6 +910,9 @@ fn expect_reverse_bid(
                         if pr.wide {
                             labels.push("fee-wide");
                         }
+                        if pr.hi - pr.lo > 3 {
+                            zone = Some("pro-rata acceptance set too wide to enumerate".into());
+                        }
                         pr.candidates()
                     } else {
                         vec![0]
@@ -1107,6 +1110,9 @@ fn expect_match(
                         let pr2 = prorata(b.fee_amount(), rem_quote - bgross, b.quote);
                         if pr1.wide || pr2.wide {
                             labels.push("fee-wide");
+                        }
+                        if pr1.hi - pr1.lo > 3 || (improved && pr2.hi - pr2.lo > 3) {
+                            zone = Some("pro-rata acceptance set too wide to enumerate".into());
                         }
                         (
                             pr1.candidates(),
